@@ -1605,6 +1605,16 @@ func (e *lbEngine) execBlock(in *lbInst, b *ssa.BasicBlock, st *lstate, rets *[]
 		switch x := instr.(type) {
 		case *ssa.Phi:
 		case *ssa.BinOp:
+			if x.Op == token.AND && isIntType(x.Type()) {
+				// x & k for a constant k >= 0 lies in [0, k] (a nibble mask in front of a digit table)
+				for _, side := range []ssa.Value{x.X, x.Y} {
+					if k, ok := constInt(side); ok && k >= 0 {
+						a := linAtom(e.atom(x))
+						st = st.eliminate(e.at, map[atomID]bool{e.atom(x): true}).ge(a, linConst(0)).ge(linConst(k), a)
+						break
+					}
+				}
+			}
 			// C14/R10: the window compared with a comment terminator does not overlap the opener
 			if e.scanNeed != nil && e.record && e.scanFns[in.fn.Name()] && x.Op == token.EQL && isStringType(x.X.Type()) {
 				for _, side := range []ssa.Value{x.X, x.Y} {
@@ -3122,6 +3132,10 @@ func (e *lbEngine) progressObligations(in *lbInst, fn *ssa.Function, b *ssa.Basi
 						ok, how = true, "counter "+phi.Comment+" increases"
 						break
 					}
+					if okl && st.proves(e.at, lfact{l: linAtom(e.atom(phi)).sub(nv).add(linConst(-1))}) {
+						ok, how = true, "counter "+phi.Comment+" decreases" // `for shift := 4*(n-1); shift >= 0; shift -= 4`
+						break
+					}
 				}
 			}
 			// ranges over finite values need no measure
@@ -3150,7 +3164,7 @@ func (e *lbEngine) progressObligations(in *lbInst, fn *ssa.Function, b *ssa.Basi
 			ob.total++
 			if !ok {
 				ob.failed++
-				d := fmt.Sprintf("on the back edge from block %d (%s) neither pos >= pos at the start of the iteration + 1 nor an integer loop variable grown by at least 1 is proved; reached through %s", b.Index, e.w.pos(lastPos(b)), e.context())
+				d := fmt.Sprintf("on the back edge from block %d (%s) neither pos >= pos at the start of the iteration + 1 nor an integer loop variable grown (or shrunk) by at least 1 is proved; reached through %s", b.Index, e.w.pos(lastPos(b)), e.context())
 				if len(ob.details) < 3 {
 					ob.details[d] = true
 				}
@@ -4516,7 +4530,7 @@ func ruleC03R6(w *World, r *Report) {
 	}
 	// C03/R7: strict progress of the loops — a second, cheap run: every function of the scope on its own,
 	// loop-free leaf helpers inlined, other lexer methods summarised as "move the cursor forward"
-	r.rule("C03/R7", "every loop of the byte-level code makes strict progress: on each back edge either Lexer.pos is at least one byte further than at the start of the iteration (so a skipN(n) counts only where n >= 1 is proved; `pos != saved` counts because the cursor only moves forward) or an integer variable of the loop head has grown by at least one, or the loop ranges over a finite value", 6)
+	r.rule("C03/R7", "every loop of the byte-level code makes strict progress: on each back edge either Lexer.pos is at least one byte further than at the start of the iteration (so a skipN(n) counts only where n >= 1 is proved; `pos != saved` counts because the cursor only moves forward) or an integer variable of the loop head has grown (or shrunk) by at least one, or the loop ranges over a finite value", 6)
 	for _, ob := range w.lexProgress() {
 		if ob.failed == 0 {
 			r.ok("C03/R7", ob.construct, ob.where, fmt.Sprintf("proved on %d back edge evaluation(s)%s", ob.total, ob.note))
